@@ -116,6 +116,9 @@ func TestVerifC01(t *testing.T) {
 	var cfgs []c01Cfg
 	for _, root := range roots {
 		for _, ap := range vAssetPaths(root) {
+			if vTimeOffsetAsset(ap) {
+				continue // see DESIGN: assets whose first segment does not start at media time 0 are probed by C02 only
+			}
 			a, err := vAsset(root, ap)
 			if err != nil {
 				rep.Note("asset %s not loadable by the reference: %v", ap, err)
